@@ -420,7 +420,12 @@ func (g *hgen) next(i int) *hreq {
 		if h.msg != nil {
 			sc := mutateStrings(r, h.msg, 1+r.Intn(2))
 			if mode == 1 {
-				h.class = sc
+				if i := strings.Index(h.class, "]:"); strings.HasPrefix(h.class, "follow[") && i > 0 {
+					// still a follow-up on the accepted hostile model: the finding classes are named after it
+					h.class = h.class[:i+2] + sc
+				} else {
+					h.class = sc
+				}
 			} else {
 				h.class += "+" + strings.SplitN(sc, "@", 2)[0]
 			}
